@@ -102,7 +102,7 @@ def run(ck, tier):
         for bi, t in f.calls():
             if inst_of(t) == RUN or (t["f"].get("def") and norm(t["f"]["def"]) == RUN):
                 callers.append((f, bi, t))
-    ck.floor(rule, "callers of run_on_chunk", len(callers), 2)
+    ck.floor(rule, "callers of run_on_chunk", len(callers), 1)
     for f, bi, t in callers:
         ck.saw(f)
         pv = Prov(f)
@@ -161,7 +161,7 @@ def match_to_lint_locality(ck, p, rule):
     """how the match_to_lint bodies use `source` (shared with C05: the chunk cache is only sound if they look only inside the chunk)"""
     # match_to_lint bodies: how `source` is used
     impls = p.impls_of_method("harper_core::linting::pattern_linter::PatternLinter::match_to_lint")
-    ck.floor(rule, "impls of PatternLinter::match_to_lint", len(impls), 40)
+    ck.floor(rule, "impls of PatternLinter::match_to_lint", len(impls), 24)
     ok_n = 0
     for f in impls:
         if f.get("impl_self_head", "").startswith("alloc::boxed"):
@@ -248,7 +248,7 @@ def _lexlocal(ck, p, byk):
     if table is None:
         ck.refuted(rule, "anchor-missing:lexer-table", f.span, "the array of lexer functions in lex_token was not found")
         return
-    ck.floor(rule, "entries of the lexer table", len(table), 14)
+    ck.floor(rule, "entries of the lexer table", len(table), 8)
     # worklist: (function, set of parameters that hold the uncut remaining input)
     todo = [(nm, frozenset([1])) for nm in table]
     done = {}
@@ -371,7 +371,7 @@ def _carry(ck, p):
                 ck.refuted(rule, key, f.loc(f.blocks[decides[0]]["t"].get("ln", 0)), "the loop over %s() carries %s from one unit to the next and a branch in the loop depends on it; nothing in the rule looks for a paragraph break, so what is reported for a paragraph depends on the paragraphs before it (the first unit of the document is also treated differently from the first unit of any later paragraph)" % (unit, what))
             else:
                 ck.undecided(rule, key, f.span, "the loop over %s() carries %s from one unit to the next (%s)" % (unit, what, "a paragraph-break test exists; whether it resets the state is not decided" if tests_break else "no branch depends on it"))
-    ck.floor(rule, "unit loops in hand-written rules", n_loops, 6)
+    ck.floor(rule, "unit loops in hand-written rules", n_loops, 3)
 
 
 def _mentions(o, locs):
